@@ -1,6 +1,150 @@
 import TantivyModel.Driver.Proto
+import TantivyModel.Model.VInt
+import TantivyModel.Model.FieldNorm
+import TantivyModel.Model.Invert
+import TantivyModel.Model.PostingsCodec
+import TantivyModel.Model.Positions
+/-!
+Line protocol of the C07 model (see harness/src/props/c07.rs):
+
+* `vint_enc <n>` → hex; `vint_dec <hex>` → `<n> <consumed>` | `err`
+* `numbits <n>`; `fn_to_id <n>`; `id_to_fn <i>`
+* `enc <opt> <docs> <tfs>` → hex of the term's postings bytes
+* `dec <opt> <doc_freq> <hex>` → `<docs>|<tfs>` | `err`
+* `seek <opt> <doc_freq> <hex> <program>` → doc after every op
+* `pos_enc <deltas>` → hex; `pos_read <hex> <offset> <len>` → values | `err`
+* `blocksearch <values> <target>` → index
+* `invert <opt> <corpus>` → `<terms>|<total_num_tokens>|<fieldnorm ids>`
+-/
 namespace TantivyModel.Driver.C07
-/-- stub: the model for C07 is not built yet -/
+open TantivyModel TantivyModel.Proto TantivyModel.Invert TantivyModel.Postings
+
+def natsOfHex (h : String) : Option (List Nat) := (bytesOfHex h).map (·.map (·.toNat))
+
+def hexOfNats (l : List Nat) : Option String :=
+  if l.all (· < 256) then some (hexOfBytes (l.map UInt8.ofNat)) else none
+
+def parseOpt : String → Option RecOpt
+  | "basic" => some .basic
+  | "freqs" => some .freqs
+  | "positions" => some .positions
+  | _ => none
+
+def parseToken (s : String) : Option Token :=
+  match s.splitOn ":" with
+  | [h, p, l] =>
+    match natsOfHex h, p.toNat?, l.toNat? with
+    | some t, some p, some l => some { term := t, pos := p, posLen := l }
+    | _, _, _ => none
+  | _ => none
+
+def parseValue (s : String) : Option Value :=
+  if s == "_" then some [] else (s.splitOn ",").mapM parseToken
+
+def parseDoc (s : String) : Option Doc :=
+  if s.isEmpty then some [] else (s.splitOn "/").mapM parseValue
+
+def parseCorpus (s : String) : Option Corpus :=
+  if s == "-" then some [] else (s.splitOn ";").mapM parseDoc
+
+def showPositions (l : List Nat) : String :=
+  if l.isEmpty then "-" else ".".intercalate (l.map toString)
+
+def showPosting (p : Posting) : String :=
+  toString p.doc ++ ":" ++ toString p.tf ++ ":" ++ showPositions p.positions
+
+def showTerm (o : RecOpt) (e : Term × List Posting) : String :=
+  (hexOfNats e.1).getD "bad" ++ "=" ++ ",".intercalate (e.2.map (fun p => showPosting (project o p)))
+
+def showInverted (o : RecOpt) (inv : Inverted) : String :=
+  (if inv.terms.isEmpty then "-" else ";".intercalate (inv.terms.map (showTerm o)))
+  ++ "|" ++ toString inv.totalNumTokens ++ "|" ++ showNatList (fieldnormIds inv)
+
+def parseOp (s : String) : Option Op :=
+  if s == "A" then some .advance
+  else if s.startsWith "S" then (s.drop 1).toNat?.map Op.seek
+  else none
+
+def parseProgram (s : String) : Option (List Op) :=
+  if s == "-" then some [] else (s.splitOn ",").mapM parseOp
+
+def handleInvert (o : String) (corpus : String) : String :=
+  match parseOpt o, parseCorpus corpus with
+  | some o, some c => showInverted o (invert c)
+  | _, _ => "bad-op"
+
 def handle : List String → String
+  | ["ping"] => "pong"
+  | ["vint_enc", n] =>
+    match n.toNat? with
+    | some n => (hexOfNats (VInt.enc VInt.STOP n)).getD "bad-op"
+    | none => "bad-op"
+  | ["vint_dec", h] =>
+    match natsOfHex h with
+    | some bs =>
+      match VInt.dec VInt.STOP bs with
+      | some (v, r) => toString v ++ " " ++ toString (bs.length - r.length)
+      | none => "err"
+    | none => "bad-op"
+  | ["numbits", n] =>
+    match n.toNat? with
+    | some n => toString (computeNumBits n)
+    | none => "bad-op"
+  | ["fn_to_id", n] =>
+    match n.toNat? with
+    | some n => toString (FieldNorm.fieldnormToId FieldNorm.table n)
+    | none => "bad-op"
+  | ["id_to_fn", i] =>
+    match i.toNat? with
+    | some i => if i < 256 then toString (FieldNorm.idToFieldnorm FieldNorm.table i) else "bad-op"
+    | none => "bad-op"
+  | ["enc", o, docs, tfs] =>
+    match parseOpt o, natList docs, natList tfs with
+    | some o, some docs, some tfs =>
+      if docs.length ≠ tfs.length then "bad-op"
+      else (hexOfNats (encodeTerm cfg o docs tfs)).getD "bad-op"
+    | _, _, _ => "bad-op"
+  | ["dec", o, df, h] =>
+    match parseOpt o, df.toNat?, natsOfHex h with
+    | some o, some df, some bs =>
+      match decodeAll cfg o df bs with
+      | some (docs, tfs) =>
+        showNatList docs ++ "|" ++ showNatList (if hasFreq o then tfs else docs.map (fun _ => 1))
+      | none => "err"
+    | _, _, _ => "bad-op"
+  | ["seek", o, df, h, prog] =>
+    match parseOpt o, df.toNat?, natsOfHex h, parseProgram prog with
+    | some o, some df, some bs, some ops =>
+      match decodeTerm cfg o df bs with
+      | some blocks => showNatList ((run cfg o (Cursor.init blocks) ops).map (·.1))
+      | none => "err"
+    | _, _, _, _ => "bad-op"
+  | ["seekfull", o, df, h, prog] =>
+    match parseOpt o, df.toNat?, natsOfHex h, parseProgram prog with
+    | some o, some df, some bs, some ops =>
+      match decodeTerm cfg o df bs with
+      | some blocks =>
+        ";".intercalate ((run cfg o (Cursor.init blocks) ops).map
+          (fun r => toString r.1 ++ ":" ++ toString r.2.1 ++ ":" ++ toString r.2.2))
+      | none => "err"
+    | _, _, _, _ => "bad-op"
+  | ["pos_enc", ds] =>
+    match natList ds with
+    | some ds => (hexOfNats (Positions.encode cfg ds)).getD "bad-op"
+    | none => "bad-op"
+  | ["pos_read", h, off, len] =>
+    match natsOfHex h, off.toNat?, len.toNat? with
+    | some bs, some off, some len =>
+      match Positions.read cfg bs off len with
+      | some vs => showNatList vs
+      | none => "err"
+    | _, _, _ => "bad-op"
+  | ["blocksearch", vs, t] =>
+    match natList vs, t.toNat? with
+    | some vs, some t => if vs.length = cfg.B then toString (searchBlock cfg vs t) else "bad-op"
+    | _, _ => "bad-op"
+  | ["invert", o, corpus] => handleInvert o corpus
+  | ["invert", o] => handleInvert o ""
   | _ => "bad-op"
+
 end TantivyModel.Driver.C07
